@@ -10,7 +10,7 @@ ASSUMPTIONS = [
     "Model/Btor2Ser.v mirrors serialize.rs except for names (no name tokens, no alias lines): tied by running Model.parse_lines (Model.serialize sys) and comparing with the real reader's result on the real writer's text modulo symbol names (systems whose expanded trees have < 30000 nodes; larger ones are checked on the implementation side only)",
     "equivalence of read(write(sys)) and sys is decided by structural identity of the expression graphs under the positional symbol correspondence, and where they differ by the extracted Spec/Eval.v on 6 valuations (all zero, all ones, 4 random with corner values)",
     "states without init and next are expected to come back as inputs appended to the input list (parse.rs demotes them); this is taken as the specified behaviour of the pair, not as a failure",
-    "names are tested, not proved: names of inputs/states/outputs of the parsed system must be identical after a second write/read cycle",
+    "names are tested, not proved. Model/Btor2SerNames.v models the writer INCLUDING its name bookkeeping: its lines must equal the implementation's text token by token (both cycles), and reading them with the model reader predicts which explicit names the unmodified pair preserves; an explicit name that the pair preserves must survive in the implementation (key names:lost:*), a name the pair itself loses is excused only under the key of its recorded class",
 ]
 TRUSTED = ["ocaml/driver/c09.ml: positional matching, memoised graph comparison, valuation construction"]
 
